@@ -100,6 +100,8 @@ def cases(draw, convs=S.ALL_CONVS):
         variables.append({"name": f"v{k}", "kind": "face", "dims": list(draw(st.permutations(dims))),
                           "dtype": draw(st.sampled_from(["f8", "f4", "i4"])), "fill": None})
     spec["vars"] = variables
+    if nt and draw(st.integers(0, 3)) == 0:
+        spec["pick"] = {"tstep": draw(st.integers(0, nt - 1))}      # ds.isel(tstep=k) beforehand
     spec["mode"] = draw(st.sampled_from(["raw", "raw", "dask", "file"]))
     spec.update(draw(S.storage_options(conv)))
     return {"spec": spec,
